@@ -112,6 +112,12 @@ func init() {
 				c = g.build(db, row, "form")
 			}
 			add(c)
+			for _, t := range row.TypeNames {
+				if t == "al" || t == "cl" || t == "ax" || t == "eax" || t == "rax" || t == "xmm0" {
+					add(g.build(db, row, "sibling"))
+					break
+				}
+			}
 		}
 		for _, c := range replayed {
 			add(c)
